@@ -62,6 +62,28 @@ class Interrupted(Exception):
     pass
 
 
+class Gate(object):
+    """Holds calls back until opened (used to keep the first reader's reads waiting until a second client has joined)."""
+
+    def __init__(self):
+        self.is_open = False
+        self.waiters = []
+
+    def wait(self):
+        from twisted.internet import defer
+        if self.is_open:
+            return None
+        d = defer.Deferred()
+        self.waiters.append(d)
+        return d
+
+    def open(self):
+        self.is_open = True
+        ws, self.waiters = self.waiters, []
+        for d in ws:
+            d.callback(None)
+
+
 class Wire(object):
     """Stand-in for a foolscap RemoteReference: callRemote through the eventual queue, Referenceable
     arguments and the upload helper in the answer of upload_chk are wrapped in turn; a fault plan can cut
@@ -74,6 +96,9 @@ class Wire(object):
     def callRemote(self, methname, *args, **kw):
         from foolscap.api import Referenceable, fireEventually
         d = fireEventually()
+        gate = self.plan.get("gate")
+        if gate is not None and methname == "read_encrypted":
+            d.addCallback(lambda _: gate.wait())
 
         def _call(_):
             self.tape.append((type(self.target).__name__, methname, tuple(a for a in args if isinstance(a, int))))
@@ -587,6 +612,128 @@ def one_file(ctx, rig, twin, fi, terms, info):
         if rig.helper._active_uploads:
             fail("concurrent-uploads-through-one-helper:upload-left-active", "the helper still lists an active upload", case=ccase)
             rig.helper._active_uploads.clear()
+        rig.g.delete_shares(cap_d)
+
+    # ---- forced, in every run: a second client JOINS the active upload (early return of remote_upload_chk), then the
+    # first client's reader dies after the 1st, a middle, the last chunk: AskUntilSuccessMixin.call must fall over to the
+    # second reader, which skips ahead.  And the same with the second reader dying too: every reader gone, the upload
+    # ends in an error, the helper forgets it (_active_uploads), a later upload resumes from what is on disk.
+    from foolscap.api import fireEventually as _fe
+    full = ctx.tier == "thorough" or ctx.search
+    after = {1, (nchunks + 1) // 2} | ({0, nchunks - 1} if full else set())       # chunks fetched before the cut
+    cuts = [("read", c_ + 1) for c_ in sorted(after) if 0 <= c_ < nchunks] + [("after-last-chunk", nchunks + 1)]
+    if not full and fi >= 8:
+        cuts = []          # quick: the first eight files of every run carry the forced cases
+
+    def joined(first_fault, second_fault):
+        tape1, tape2 = [], []
+        gate = Gate()
+
+        def hook2(m):
+            if m == "upload":
+                _fe().addCallback(lambda _: gate.open())      # the turn after remote_upload added the second reader
+        plan1 = dict(first_fault, gate=gate)
+        plan2 = dict(second_fault, hook=hook2)
+
+        def go():
+            ds = []
+            done = defer.Deferred()
+            gathered = []
+
+            def gather():
+                if not gathered:
+                    gathered.append(True)
+                    defer.DeferredList(list(ds), consumeErrors=True).chainDeferred(done)
+
+            def hook1(m):
+                if m == "upload" and len(ds) == 1:
+                    rig.up._helper = Wire(rig.helper, tape2, plan2)
+                    ds.append(rig.up.upload(_upload.Data(data, convergence=conv)))
+                    gather()
+            plan1["hook"] = hook1
+            rig.up._helper = Wire(rig.helper, tape1, plan1)
+            ds.append(rig.up.upload(_upload.Data(data, convergence=conv)))
+
+            def first_over(res_):
+                gate.open()
+                gather()
+                return res_
+            ds[0].addBoth(first_over)
+            return done
+        c0 = dict(rig.helper._counters)
+        out = rig.g.run(go, outcome=True)
+        rig.up._helper = None
+        gate.open()
+        early = (rig.helper._counters["chk_upload_helper.upload_requests"] - c0["chk_upload_helper.upload_requests"] == 2
+                 and rig.helper._counters["chk_upload_helper.upload_need_upload"] - c0["chk_upload_helper.upload_need_upload"] == 1)
+        return out, tape1, tape2, early
+
+    def idle(where, case_):
+        if rig.helper._active_uploads:
+            fail("helper-keeps-dead-active-upload:" + where, "after %s the helper still lists an active upload for the storage index" % where, case=case_)
+            rig.helper._active_uploads.clear()
+
+    for what, j in cuts:
+        fault = {"fail_at": j, "after": False} if what == "read" else {"fail_method": "get_all_encoding_parameters"}
+        fcase = {"cut": what, "read": j}
+        # (1) fail-over
+        out, tape1, tape2, early = joined(fault, {})
+        ctx.case(("join-failover", what, j, nchunks, early), kind="joined-active-upload-failover" + ("" if early else "-late-join"))
+        if out.status != "ok":
+            fail("failover-upload-wrong:joined", "second client joined, first reader cut (%s %d): the session ended with %s %s" % (what, j, out.status, out.error), case=fcase)
+        else:
+            res = out.value
+            caps = [x.get_uri() for ok_, x in res if ok_]
+            second_ok = len(res) == 2 and res[1][0]
+            if not second_ok or any(c != cap_d for c in caps):
+                fail("failover-upload-wrong:joined",
+                     "second client joined the active upload, first reader cut (%s %d of %d): results %s" % (what, j, nchunks, [(ok_, str(x)[:100]) for ok_, x in res]),
+                     case=fcase, expected="the surviving client gets " + cap_d.decode(), observed=[c.decode() for c in caps])
+            else:
+                if rig.shares(cap_d) != shares_d:
+                    fail("helper-shares-differ-from-direct-shares:joined-failover", "fail-over to the joined reader (%s %d) produced other shares than the direct upload" % (what, j), case=fcase)
+                dl = rig.g.run(rig.g.download(cap_d), outcome=True)
+                if dl.status != "ok" or dl.value != data:
+                    fail("failover-upload-not-readable", "after the fail-over (%s %d) the file does not read back: %s %s" % (what, j, dl.status, dl.error), case=fcase)
+                if what == "read" and early:
+                    r1, r2 = reads(tape1), reads(tape2)
+                    have_ = (j - 1) * chunk
+                    want2 = [(o_, min(chunk, size - o_)) for o_ in range(have_, size, chunk)]
+                    if len(r1) != j or r2 != want2:
+                        fail("failover-transfer-requests", "first reader cut at read %d: it was asked %s, the joined reader %s" % (j, r1[-2:], r2[:3]),
+                             case=fcase, expected={"first": j, "second": want2[:3]}, observed={"first": r1[-2:], "second": r2[:3]})
+        clean("joined-failover")
+        idle("a fail-over upload", fcase)
+        rig.g.delete_shares(cap_d)
+        # (2) every reader dies; later the file is uploaded again
+        second = {"fail_at": 1, "after": False} if what == "read" else {"fail_method": "get_all_encoding_parameters"}
+        out, tape1, tape2, early = joined(fault, second)
+        ctx.case(("join-all-die", what, j, nchunks, early), kind="joined-active-upload-every-reader-dies")
+        if out.status == "ok" and any(ok_ for ok_, _x in out.value):
+            fail("upload-succeeded-without-readers", "both readers were cut (%s %d) but a client was told the upload succeeded" % (what, j), case=fcase)
+        idle("an upload whose readers all died", fcase)
+        left = rig.leftovers()
+        have_ = (j - 1) * chunk if what == "read" else size
+        good = [v for v in left.values()]
+        if len(left) != 1 or good[0] != ct[:have_]:
+            fail("interrupted-transfer-leaves-wrong-file", "both readers cut (%s %d): the helper holds %s, expected the first %d ciphertext bytes" % (
+                what, j, {p_: len(v) for p_, v in left.items()}, have_), case=fcase)
+            for p_ in left:
+                os.unlink(os.path.join(rig.dir, p_))
+            have_ = 0
+        if rig.g.find_shares(cap_d):
+            fail("interrupted-transfer-placed-shares", "both readers cut (%s %d): shares were placed" % (what, j), case=fcase)
+            rig.g.delete_shares(cap_d)
+        out, tape = rig.upload(data, conv)
+        ctx.case(("afresh", what, j, nchunks), kind="upload-afresh-after-every-reader-died")
+        if check_result("afresh-after-every-reader-died", out, tape, have_, chunk, delete=False):
+            dl = rig.g.run(rig.g.download(cap_d), outcome=True)
+            if dl.status != "ok" or dl.value != data:
+                fail("resumed-upload-not-readable", "the upload started afresh after every reader had died (%s %d) does not read back: %s %s" % (what, j, dl.status, dl.error), case=fcase)
+        else:
+            for p_ in rig.leftovers():
+                os.unlink(os.path.join(rig.dir, p_))
+        idle("the upload that followed", fcase)
         rig.g.delete_shares(cap_d)
 
     # ---- already present: no ciphertext moves
